@@ -390,6 +390,81 @@ def run_build_race(ctx, n):
             state.close()
 
 
+def run_stage_links(ctx, n):
+    """a staged directory that contains symlinks to files: the targets are rewritten (in place or replaced, same or another
+    size) between two stagings; every hash the second staging reports - and every later single lookup - is that of the bytes
+    a reader of the path gets now"""
+    import time
+
+    from dvc_objects.fs.local import LocalFileSystem
+
+    from dvc_data.hashfile.build import build
+    from dvc_data.hashfile.db.local import LocalHashFileDB
+    from dvc_data.hashfile.hash import hash_file
+    from dvc_data.hashfile.state import State
+
+    rng = ctx.rng
+    fs = LocalFileSystem()
+    for _ in range(n):
+        root = ctx.mkdtemp()
+        ws, outside = os.path.join(root, "ws"), os.path.join(root, "outside")
+        os.makedirs(os.path.join(ws, "sub"))
+        os.makedirs(outside)
+        plain = {"a": b"plain-a", "sub/b": b"plain-b-%d" % rng.randrange(100)}
+        for k, v in plain.items():
+            with open(os.path.join(ws, k), "wb") as f:
+                f.write(v)
+        links = {}
+        for i in range(rng.randrange(1, 4)):
+            tgt = os.path.join(outside if rng.random() < 0.6 else ws, "target%d" % i)
+            with open(tgt, "wb") as f:
+                f.write(b"target-%d-v1" % i)
+            ln = rng.choice(["", "sub/"]) + "link%d" % i
+            os.symlink(tgt, os.path.join(ws, ln))
+            links[ln] = tgt
+        state = State(root_dir=root, tmp_dir=os.path.join(root, "tmp"))
+        odb = LocalHashFileDB(fs, os.path.join(root, "odb"), state=state)
+        algo = rng.choice(["md5", "md5", "sha256"])
+        edits = {}
+        case = {"stage_links": {"links": sorted(links), "algo": algo, "edits": edits}}
+        try:
+            k1, _ = safe_call(lambda: build(odb, ws, fs, algo))
+            for ln, tgt in links.items():
+                how = rng.choice(["rewrite_same_size", "rewrite_same_size", "replace_same_size", "rewrite_other_size", "keep"])
+                edits[ln] = how
+                if how == "keep":
+                    continue
+                old = open(tgt, "rb").read()
+                new = old[:-1] + b"2" if how != "rewrite_other_size" else old + b"-longer"
+                time.sleep(0.002)
+                if how == "replace_same_size":
+                    tmp = tgt + ".new"
+                    with open(tmp, "wb") as f:
+                        f.write(new)
+                    os.replace(tmp, tgt)
+                else:
+                    with open(tgt, "wb") as f:
+                        f.write(new)
+            ctx.case(case)
+            for how in edits.values():
+                ctx.count("stage_links:" + how)
+            k2, res = safe_call(lambda: build(odb, ws, fs, algo))
+            ctx.oracle(k1 == "ok" and k2 == "ok", case, {"why": "staging a directory with symlinks raised", "impl": str(res)[:200]})
+            if k2 != "ok":
+                continue
+            tree = res[2]
+            got = {"/".join(key): hi.value for key, _, hi in tree}
+            for rel in list(plain) + list(links):
+                cur = digest(algo, open(os.path.join(ws, rel), "rb").read())
+                ctx.oracle(got.get(rel) == cur, case, {"why": "the second staging reports a stale hash for a path whose bytes changed through its symlink target",
+                                                       "path": rel, "staged": got.get(rel), "current": cur})
+                _, hi2 = hash_file(os.path.join(ws, rel), fs, algo, state=state)
+                ctx.oracle(hi2.value == cur, case, {"why": "single lookup after the staging differs from the current bytes", "path": rel,
+                                                    "got": hi2.value, "current": cur})
+        finally:
+            state.close()
+
+
 def run_checkout_state(ctx, n):
     """index checkout with a hash-state database onto a workspace that already holds foreign files, some objects being unavailable:
     whatever the cache says about a workspace path afterwards must be the hash of the bytes that are there"""
@@ -457,7 +532,7 @@ def run(ctx):
         "with and without preserved mtime), touch, delete, re-create — each followed by an explicit mtime bump from 1 ms to 3 s — "
         "interleaved with hash_file (md5 / md5-dos2unix / sha256), State.get, State.get_many and rows injected as another release "
         "would write them (version-less, newer version); batches of 0/1/998/999/1000/1100(2500) paths; staging under one algorithm "
-        "then another; index md5()+edits+update(); files rewritten from the progress callback while their directory is being staged; a memory filesystem. non-trivial = >=1 mutation and >=4 steps"
+        "then another; index md5()+edits+update(); files rewritten from the progress callback while their directory is being staged; staged directories holding symlinks whose targets are rewritten or replaced between two stagings; a memory filesystem. non-trivial = >=1 mutation and >=4 steps"
     )
     ctx.assumptions = ["a mutation changes at least one of (inode, mtime, size) and never returns to a stamp the path had with other bytes (inode reuse under a preserved mtime and size is bumped); the harness enforces it with os.utime",
                        "fsspec.utils.tokenize is injective on the (ino, mtime, size) triples that occur"]
@@ -467,6 +542,7 @@ def run(ctx):
     run_other(ctx, ctx.n(25, 250))
     run_build_race(ctx, ctx.n(40, 400))
     run_checkout_state(ctx, ctx.n(50, 500))
+    run_stage_links(ctx, ctx.n(30, 300))
 
 
 def search(ctx):
@@ -475,6 +551,7 @@ def search(ctx):
     run_other(ctx, 200)
     run_build_race(ctx, 300)
     run_checkout_state(ctx, 300)
+    run_stage_links(ctx, 300)
 
 
 def replay(ctx, payload):
